@@ -309,7 +309,8 @@ namespace CDNS {
                                           m_decoder(input),
                                           m_blocks_count(0),
                                           m_blocks_read(0),
-                                          m_indef_blocks(false) { read_file_header(); }
+                                          m_indef_blocks(false),
+                                         m_indef_file(false) { read_file_header(); }
 
         /**
          * @brief Read whole C-DNS Block from input stream
@@ -328,9 +329,16 @@ namespace CDNS {
          */
         void read_file_header();
 
+        /**
+         * @brief Read the break that closes a file array of indefinite length (called when the array of blocks ends)
+         * @throw CdnsDecoderEnd if the input ends before it
+         */
+        void end_of_file();
+
         CdnsDecoder m_decoder;
         uint64_t m_blocks_count;
         uint64_t m_blocks_read;
         bool m_indef_blocks;
+        bool m_indef_file; //!< The file array itself has indefinite length: its break follows the array of blocks
     };
 }
